@@ -1,5 +1,17 @@
 //! Reference models: our own transcriptions of sections of TeX: The Program, TFtoPL and PLtoTF.
 //! This crate must not depend on anything from /repo (enforced by its Cargo.toml having no
 //! path dependencies): a model that shared code with the implementation would agree with its bugs.
+//! One file per topic; every module line below is pre-declared so that owners only touch their file.
 
 pub mod arith;
+pub mod dvipos;
+pub mod expand;
+pub mod fontarith;
+pub mod hpack;
+pub mod knuthplass;
+pub mod lexer;
+pub mod liang;
+pub mod ligkern;
+pub mod macrocall;
+pub mod paragraph;
+pub mod texarith;
